@@ -86,9 +86,13 @@ CLAIMS = {
    technique="guarded-use analysis of trace bytes: relational interval abstract interpretation of stream_step over symbolic offset/size/event bytes (two consecutive calls, inductive), per-read byte-range obligations from record layouts; symbolic payload-size evaluation of every payload read in the handlers; evaluation of the printer's payload check; table-dimension and index-range checks",
    text="Decides the memory-safety and progress clauses: for every stream size, offset and event bytes, each read stream_step performs through the cursor (flags, jumbo size, clock) is inside the mapped stream, an accepted event lies wholly inside the stream as the decoder will read it, and the cursor advances by at least one header with the size computed without narrowing; every constant-offset payload read in the 8 models' handlers and the mark handler is dominated by a payload-size test covering the bytes (escalating to callers); jumbo data is used as a string only after size and terminator tests; the event printer's payload check is evaluated on 9 shape cases and its result must be used; dispatch tables are 256x256; CPU and mux indices are range-checked. Assumes streams below 2 GiB for the decoder clause. Not decided: termination in general and robustness to arbitrary JSON beyond the getters' NULL/0 discipline.",
    design_ref="§4 C19"),
+ "C20": dict(
+   technique="abstract evaluation of the breakdown selectors and wiring in both task models (sibling agreement), of sort_cb_input's store/compare/write discipline, and bounded abstract evaluation of sort_replace on all sorted arrays of length 1..4 over {0..3}",
+   text="Decides the wiring clauses and a bounded part of the core: select_tr / select_idle are evaluated over their value cases in nOS-V and Nanos6 and must choose task type / subsystem / nothing and tr / idle as documented; connect_cpu's mux0/mux1 wiring (select, inputs, default) and breakdown_connect's mapping of the i-th physical CPU to sort input i and row i (virtual CPUs skipped, rows = ncpus - nlooms) must match; cmp_int64 is ascending; sort_cb_input stores the new value first, skips unchanged inputs and writes exactly the outputs that change; sort_replace is evaluated on all 420 (sorted array of <= 4 values in {0..3}, old, new) cases and must yield the sorted multiset. NOT decided: that sort_replace keeps the array a sorted permutation for arrays of unbounded length (a loop invariant over array contents), hence 'at every instant' for arbitrary CPU counts.",
+   design_ref="§4 C20"),
 }
 
-NA_REASON = "check not built yet (work in progress; see DESIGN.md §4 for the planned rules)"
+NA_REASON = "not claimed"
 
 checks = []
 na = []
